@@ -39,3 +39,21 @@ impl Binders for PatId {
         }
     }
 }
+
+/// The binder definitions of a pattern in source order, a name written twice
+/// appearing twice. [`Binders::binders`] keeps one definition per name, and
+/// which one it keeps depends on the shape of the pattern.
+pub fn binders_in_order(pat: &PatId, arena: &BitterArena) -> Vec<(VarName, DefId)> {
+    match &arena.pats[pat] {
+        | Pattern::Ann(Ann { tm, ty: _ }) => binders_in_order(tm, arena),
+        | Pattern::Hole(Hole) | Pattern::Triv(Triv) => Vec::new(),
+        | Pattern::Var(def) => vec![(arena.defs[def].clone(), *def)],
+        | Pattern::Named(Named(_, inner)) | Pattern::Ctor(Ctor(_, inner)) => {
+            binders_in_order(inner, arena)
+        }
+        | Pattern::Project(ProjectionPattern(_, inner)) => binders_in_order(inner, arena),
+        | Pattern::Alias(Alias(items)) | Pattern::Cons(items) => {
+            items.iter().flat_map(|item| binders_in_order(item, arena)).collect()
+        }
+    }
+}
